@@ -25,6 +25,7 @@ CHECKS = {
     "C18": (CONT + "; built-ins positional and as parameter-object fields in all three lifetimes over root/child/grandchild/sibling scopes; reserved types in every output position rejected (RegistryMC items c1-c5)", "3.2, 3.3, 6 (C18)"),
     "C19": (GRAPH, "3.1, 6 (C19)"),
     "C17": (REG, "3.2, 6 (C17)"),
+    "C16": ("Middleware.tla (per-request life cycle: one scope per request, callbacks in configuration order all seeing that scope, error handler instead of handler, Handle resolving before calling, panic swallowed iff recovery, scope closed exactly once) with the reference life cycle of MiddlewareMC model-checked by TLC over the whole configuration space and all interleavings of 1-3 concurrent requests; every configuration executed on the real net/http, chi, gin, echo and fiber integrations (harness-web); every callback / error handler / scope close / scoped-instance close recorded and validated by TLC against MiddlewareTrace", "3.5, 6 (C16)"),
     "C09": (CONC + "; data races: the same programs under Go's race detector with no recorder installed", "3.4, 6 (C09)"),
     "C14": (CONT + "; quiescent observations (goroutine count, weak-pointer reachability of closed scopes and their instances after GC, context state) validated against the specification state; N = 10..3000 create/use/close cycles; " + CONC, "3.3, 3.4, 6 (C14)"),
     "C20": (REG + "; module trees (leaves + module-name chains) applied through AddModules and, as direct calls, to a twin collection", "3.2, 6 (C20)"),
@@ -37,6 +38,7 @@ m = {"version": 1, "setup_cmd": "./setup.sh",
                "source_commits": ["035bab5", "03d21fb", "6a20b54"], "add_only": True},
      "engines": [
          {"name": "tlc-design", "path": "spec/*MC.tla spec/ContainerSweep.tla", "kind_free_text": "exhaustive TLC runs of the TLA+ design models (properties as invariants / action properties); they also emit the replayable scenarios"},
+         {"name": "replay-harness-web", "path": "harness-web/", "kind_free_text": "Go harness executing request scenarios on the five web integrations built from /repo's working tree"},
          {"name": "replay-harness", "path": "harness/", "kind_free_text": "Go harness executing scenarios against godi built from /repo's working tree (-tags verif), recording ndjson traces"},
          {"name": "tlc-trace", "path": "spec/*Trace.tla", "kind_free_text": "TLC trace validation: every recorded event is applied to the specification state and every property-tagged guard evaluated"}],
      "checks": [], "not_applicable": [],
